@@ -129,6 +129,8 @@ def addDeposit (x : SB) (now : Int) (blocked : Addr → Bool) (r s : Addr) (deno
       let z ← settleIfFunded x now blocked r s st
       pure (z.1, { z.2 with last := now }, addSeconds now ext)
     else (.ok (x, st, addSeconds st.zero ext) : M (SB × Stream × Int)))
+  -- `sdk.NewCoins(topUpDeposit)` panics on an invalid denomination
+  require (validDenom denom) (.panic "invalid denom")
   let bank ← y.1.bank.sendCoins (now / nsPerSec) s Mstr (Coins.ofCoin { denom := denom, amt := amt })
   require (ext ≤ maxDurationSeconds) eStrInvalidData
   pure { str := setStream y.1 r s { y.2.1 with deposit := y.2.1.deposit + amt, zero := y.2.2 }, bank := bank }
